@@ -163,6 +163,21 @@ class SymCtx:
         self.p.assume(z3.ULT(v, z3.BitVecVal(1 << bits, width)))
         return v
 
+    def text(self, name, n, alphabet=()):
+        """text of n characters: each one is either an arbitrary ASCII character (symbolic) or one of the given concrete
+        representatives of the non-ASCII character classes (forks)"""
+        from .stdlib import mk_str
+        items = []
+        for i in range(n):
+            k = self.choice('%s[%d]kind' % (name, i), ['ascii'] + list(alphabet))
+            if k == 'ascii':
+                items.append(self.int('%s[%d]' % (name, i), 0, 127))
+            else:
+                items.append(ord(k))
+        self.text_names = getattr(self, 'text_names', {})
+        self.text_names[name] = (n, list(alphabet))
+        return mk_str(items)
+
     def abytes(self, name):
         """byte string of SYMBOLIC length (array-backed); replay models are shrunk to short lengths"""
         arr = z3.Array(name, z3.IntSort(), z3.IntSort())
@@ -293,6 +308,13 @@ class ConcCtx:
     def bv(self, name, bits, width=64):
         return int(self._get(name, 0))
 
+    def text(self, name, n, alphabet=()):
+        out = []
+        for i in range(n):
+            k = self.choice('%s[%d]kind' % (name, i), ['ascii'] + list(alphabet))
+            out.append(chr(self.int('%s[%d]' % (name, i), 0, 127)) if k == 'ascii' else k)
+        return ''.join(out)
+
     def abytes(self, name):
         return bytes(self._get(name, []))
 
@@ -392,6 +414,13 @@ class FixedCtx(SymCtx):
 
     def bv(self, name, bits, width=64):
         return int(self.values.get(name, 0))
+
+    def text(self, name, n, alphabet=()):
+        out = []
+        for i in range(n):
+            k = self.choice('%s[%d]kind' % (name, i), ['ascii'] + list(alphabet))
+            out.append(chr(self.int('%s[%d]' % (name, i), 0, 127)) if k == 'ascii' else k)
+        return ''.join(out)
 
     def abytes(self, name):
         return bytes(self.values.get(name, []))
